@@ -101,6 +101,7 @@ def rseq(I, st, v, heap=None):
             b = heap[o.base]
             if isinstance(b, SeqVal):
                 r = RSeq(o.length, lambda i, o=o, b=b: b.elem(o.idxmap(i)), "ndarray", o.dtype)
+                r.is_view = True
                 off = o.idxmap(z3.IntVal(0))
                 step = z3.simplify(o.idxmap(z3.IntVal(1)) - off)
                 if z3.is_int_value(step) and step.as_long() == 1:
